@@ -938,8 +938,19 @@ def do_attributes(part, start, end):
 
     for t in sorted(by_start.keys()):
         attr_e = etree.Element("attributes")
+        written_signatures = set()
 
         for o in by_start[t]:
+            if isinstance(o, (score.KeySignature, score.TimeSignature)):
+                # a signature stated twice at one position is written once
+                if isinstance(o, score.KeySignature):
+                    signature = ("key", o.fifths, o.mode)
+                else:
+                    signature = ("time", o.beats, o.beat_type)
+                if signature in written_signatures:
+                    continue
+                written_signatures.add(signature)
+
             if isinstance(o, int):
                 etree.SubElement(attr_e, "divisions").text = "{}".format(o)
 
